@@ -33,10 +33,8 @@ def observe(v_abs, v_real, nprobes, rng):
         return ev
     ev["rep"], ev["r"] = try_abs(am.a_schema, result)
     ev["rrepr"] = safe_repr(result)[:300]
-    try:
-        ev["acc"] = not d42.validate(result, v_real).has_errors()
-    except Exception:
-        ev["acc"] = False
+    from .common import accepts
+    ev["acc"] = accepts(result, v_real)
     for tape in CONST_TAPES:
         exc, w = valgen.real_fake(result, tape)
         g = {"exc": exc, "rep": False, "w": []}
@@ -52,10 +50,7 @@ def observe(v_abs, v_real, nprobes, rng):
             w_abs = am.a_value(w_real)
         except am.Unrepresentable:
             continue
-        try:
-            ok = not d42.validate(result, w_real).has_errors()
-        except Exception:
-            ok = False
+        ok = accepts(result, w_real)
         ev["probes"].append({"w": w_abs, "ok": ok})
     return ev
 
